@@ -13,7 +13,7 @@ import iolib, gens
 from iolib import RunDir, run_cli, sig, shim_env, read_trace, le32
 from vlib import Oracle, hx, md5
 
-THEOREMS = ["C14_exit0_sound", "C14_rm_order", "C14_rm_order_compress", "C14_multi_exit0", "C14_truncation", "C14_truncation_exit", "C14_pipe_no_exception", "C14_lz4f_st_concrete_sound", "C14_lz4f_st_fresh_sound", "C14_old_storeCBlock_hint_refuted", "C14_hint_within_frame", "C14_call_hint_within_frame"]
+THEOREMS = ["C14_exit0_sound", "C14_rm_order", "C14_rm_order_compress", "C14_multi_exit0", "C14_truncation", "C14_truncation_exit", "C14_pipe_no_exception", "C14_lz4f_st_concrete_sound", "C14_lz4f_st_fresh_sound", "C14_old_storeCBlock_hint_refuted", "C14_hint_within_frame", "C14_call_hint_within_frame", "C14_lz4f_st_reads_exactly", "C14_lz4f_st_fresh_reads_exactly", "C14_lz4f_st_return_state"]
 CORRESPONDENCE = ["IoLz4f.lz4f_st_run (concrete LZ4IO_decompressLZ4F loop over Model.FrameD) == lz4 -d -c / -t of the ST build under the stdio tracer: sequence of fread (request, return) pairs, fwrite sizes, "
                   "exit code when the loop exits the process (62/66/67/68), decoded bytes; and == Io.lz4f_st (abstract step over frame_decode) on status, output and bytes left in the source",
                   "Io.decompress (ST model) == lz4 -d/-t of the ST build under the same input, seekable flag and I/O fault: exit status class, output on exit 0, source removal",
